@@ -6,7 +6,9 @@ does) and compared with what the real wrapper returned.
 
 Oracles on the real code alone:
   (a) `scaled_fixed`   scaled asset with min_scale = max_scale = s  vs  plain portfolio with the base asset whose
-                       capacities are all multiplied by s/norm, minus s * fix_costs * sum(dt of the active window)
+                       capacities are all multiplied by s/norm and whose window is its own window INTERSECTED with the scaled
+                       asset's start/end (the scaled asset hands its window down to the base, as a structured asset does),
+                       minus s * fix_costs * sum(dt of the scaled asset's own window)
   (b) `scaled_free`    free scale: V(free) >= V(s_i) on a grid of [min, max] and V(free) = V(s*) at the reported scale
   (c) `structured_flat` [outer.., StructuredAsset(inner)]  vs  flat [outer.., inner..]: same c, l, u, same rows up to
                        N<->S and order, same dispatch rows at outer nodes, same optimal value, solutions transport
@@ -180,8 +182,12 @@ def gen_scaled_case(rnd, tmax=10, kinds=None, exact=True):
         sargs['norm_scale'] = rnd.choice([0.0, -1.0])          # assert norm > 0
     elif r < 0.10:
         sargs['min_scale'] = -0.5                              # assert min >= 0
-    if rnd.random() < 0.35:
-        gen.put_window(sargs, gen.window(rnd, g))
+    if rnd.random() < 0.45:
+        # the scaled asset's OWN window (start / end / both; inside, straddling, covering, off the grid points, outside the
+        # horizon), over a base with or without a window of its own: the base is active in the intersection, the fixed costs
+        # are charged over the scaled asset's window
+        gen.put_window(sargs, gen.window(rnd, g, kinds=['inside', 'inside', 'start_only', 'end_only', 'straddle_start', 'straddle_end',
+                                                        'covering', 'equal', 'before', 'after', 'offgrid']))
     sc = {'type': 'ScaledAsset', 'name': rnd.choice(['sca', 'sca', 'sca_b']), 'base': base, 'args': sargs}
     pos = rnd.randint(0, len(assets))
     assets.insert(pos, sc)
@@ -572,7 +578,9 @@ def oracle_scaled(case, seed=0, grid_pts=4):
     lo, hi = float(args.get('min_scale', 0.0)), float(args.get('max_scale', 1.0))
     nrm, fc = float(args.get('norm_scale', 1.0)), float(args.get('fix_costs', 0.0))
     base = spec['base']
-    facts = {'base_type': base['type']}
+    facts = {'base_type': base['type'], 'own_window': bool('start' in args or 'end' in args),
+             'base_window': bool('start' in base.get('args', {}) or 'end' in base.get('args', {}))}
+    stats['own_window'], stats['base_window'] = facts['own_window'], facts['base_window']
     try:
         portf, tg, prices, op, sizes = _sizes(scn)
     except Exception as e:
@@ -625,6 +633,9 @@ def oracle_scaled(case, seed=0, grid_pts=4):
         if bspec is None:
             continue
         bspec['name'] = target   # same name: same column labels
+        # the rescaled base lives in the intersection of its own window with the scaled asset's window (by date arithmetic on
+        # the specification; an order book, whose constructor takes no window, gets the attributes after building)
+        _intersect_window(bspec, args)
         s_ref = _replace_asset(scn, target, [bspec])
         s_ref['prices'].update(newp)
         try:
@@ -688,13 +699,13 @@ def oracle_scaled(case, seed=0, grid_pts=4):
 
 
 def _intersect_window(a, wargs):
-    """what StructuredAsset does to an inner asset's window"""
+    """what StructuredAsset does to an inner asset's window, and ScaledAsset to its base asset's: the intersection"""
     def get(d, k):
         v = d.get(k)
         return None if v is None else pd.Timestamp(v['$dt'])
     s, e = get(wargs, 'start'), get(wargs, 'end')
     # an OrderBook's constructor takes no window: the wrapper sets the attributes (applied after building);
-    # for an inner ScaledAsset the wrapper changes the window of the scaled asset, not of its base
+    # for an inner ScaledAsset the wrapper changes the window of the scaled asset, which hands it on to its base
     tgt = a.setdefault('_attrs', {}) if a['type'] == 'OrderBook' else a['args']
     if s is not None:
         cur = get(tgt, 'start')
@@ -807,7 +818,7 @@ THEOREMS = [
     ('EAO.Properties.C16', 'EAO.C16.structured_flat_vectors', 'portfolio with the structured asset and flat portfolio have the same cost vector and bounds (same variables, same order)'),
     ('EAO.Properties.C16', 'EAO.C16.structured_flat', 'if dispatch rows sit at the assets own nodes and inner non-external node names do not occur among outer assets nodes nor in the skip list, a point satisfies all rows of the portfolio with the structured asset iff it satisfies all rows of the flat portfolio'),
 ]
-PARTIAL = ['scaled_fixed and scaled_free are statements about the RELAXED problems (bounds and rows, no integrality): for bases with boolean variables (plants with on-variables, full-execution order books) the scaled asset is not "all capacities times s/norm" (capacities that sit in matrix coefficients of boolean variables are not scaled; known finding F-16c); the per-builder identification of "right-hand sides and capacity bounds times k" with "all capacity parameters times k" is checked by the fixed-scale oracle on the real code, not proved']
+PARTIAL = ['scaled_fixed and scaled_free are statements about the RELAXED problems (bounds and rows, no integrality): for bases with boolean variables (plants with on-variables, full-execution order books) the scaled asset is not "all capacities times s/norm" (capacities that sit in matrix coefficients of boolean variables are not scaled; known finding F-16c); the per-builder identification of "right-hand sides and capacity bounds times k" with "all capacity parameters times k" is checked by the fixed-scale oracle on the real code, not proved; the model takes the base problem as the real base asset built it during the scaled set-up - that this is the base on its own window intersected with the scaled asset\'s start/end is likewise checked by the fixed-scale oracle (and by the window oracles of C08), not proved']
 THEOREMS_C08_SCALED = [
     ('EAO.Properties.C08Scaled', 'EAO.C08Scaled.scaled_mapping', 'mapping of the scaled problem (non-empty base) = base mapping with the asset name replaced, followed by the one row of the scale'),
     ('EAO.Properties.C08Scaled', 'EAO.C08Scaled.scale_row_not_dispatch', 'the scale row has type size, step 0 and is a dispatch row at no node and step'),
@@ -853,6 +864,8 @@ def run_case(case, drv, with_oracle=True):
         r['violations'] = v
         r['nontrivial'] = bool(st.get('fixed') or st.get('compared'))
         r['observed'] = st
+        if case['kind'] == 'scaled' and st.get('fixed'):
+            r['features'].append('fixed-scale-compared:own-window=%s,base-window=%s' % (st.get('own_window'), st.get('base_window')))
     return r
 
 
